@@ -50,6 +50,8 @@ func main() {
 			gen(g, vs, pickTemplates(vecTemplates(5, 4), "VecDense.SolveVec"))
 			gen(g, vs, pickTemplates(vecSelfOpTemplates(4), "VecDense.SolveVec"))
 		}},
+		// Histories of aliased operations sharing the workspace pools.
+		vlib.Group{Name: "history", Gen: genHistory},
 		// The receiver itself as one operand, every window as the other.
 		vlib.Group{Name: "selfop", Gen: func(g *vlib.G) {
 			gen(g, vecSpace(g.Seed, g.Thorough()), vecSelfOpTemplates(4))
